@@ -31,6 +31,7 @@ CLASSES = [
 
 
 class C16(Property):
+    fuzz_target = 'fuzz_repr'
     id = 'C16'
     configs = ('A',)
     bytes_per_case = 96
